@@ -769,6 +769,11 @@ def check(repo, rep, tier):
     r_templates_constant(repo, rep, 'R7.3', repo.py_files('depccg/printer'),
                          'a word or category text that contains { } is then taken for a replacement field: the record that is written is not the one the encoder produced')
     r_flat_list(repo, rep)
+    rep.rule('R7.13', 'what an encoder writes for a node is computed from that node: no table at module level that a rendering fills and a later rendering reads')
+    from ..lints import r_module_state
+    r_module_state(repo, rep, 'R7.13', repo.py_files('depccg/printer'),
+                   'a text remembered under the identity of an object answers for another object once the first one is gone (ids are reused), so a later batch is '
+                   'written with the categories / sub-trees of an earlier one in this format only')
     r_traversal(repo, rep)
     r_deriv_measures(repo, rep)
     r_deriv_columns(repo, rep)
